@@ -1,6 +1,6 @@
 """which stages decide which property, and what each claim says"""
 
-FIX_COMMITS = ["88f9d1c", "d6a9f9a", "829a1d9", "4f7f1cb"]
+FIX_COMMITS = ["88f9d1c", "d6a9f9a", "829a1d9", "4f7f1cb", "76e0d75"]
 
 TB_VERUS = [
     "Verus 0.2026.09.13 + Z3 (verifier, encoding of Rust semantics, vstd specs of Vec/String/str/slice iterators/Option/arrays)",
@@ -39,12 +39,13 @@ PLAN = {
     "C17": {
         "level": "proof",
         "witness": mixed_witness,
-        "verus_units": ["codec_dec", "codec_enc", "replace_splice", "replace_helpers", "helpers_tokens"],
+        "verus_units": ["codec_dec", "codec_enc", "replace_splice", "replace_helpers", "helpers_tokens", "rope_bounds"],
         "technique": "contract-based deductive verification (Verus): overflow/shift/index/termination obligations of the real decoder and encoders under a representation invariant",
         "claim": "Partial, unbounded proof: MappingsDecoder::next never overflows, shifts out of range, indexes out of bounds or diverges on any byte string "
                  "< 4 GiB for any number of calls (struct invariant preserved); encode_vlq is panic-free for every pair of u32 and both encoders for every sequence of "
                  "mappings with non-decreasing generated lines and ARBITRARY u32 field values (no value-domain precondition in this view; found and fixed one overflow this way); "
                  "ReplaceSource::source and ::rope slice only in range on char boundaries; check_content_at_position is total (found and fixed a line-0 underflow); "
+                 "Rope's two range-bound helpers are total (found and fixed an overflow at usize::MAX); "
                  "PotentialTokens::next (OriginalSource's tokenizer) slices only in range on char boundaries, always makes progress and returns exactly the next consecutive slice, for every UTF-8 text. "
                  "JSON parsers, chunk streaming and Rope are not decided.",
         "note": "Partial: only the decoder/encoder half of the property. Trusted: Verus/Z3/vstd, extraction rules, assume_specifications listed in evidence.",
